@@ -333,6 +333,8 @@ pub fn eval(expr: Node) -> Result<Number, Box<dyn error::Error>> {
                 } else {
                     let mut factorial_result = 1.0;
                     for i in 2..=(x as usize) {
+                        #[cfg(feature = "verif_hooks")]
+                        crate::verif_hooks::tick_loop();
                         factorial_result *= i as f64;
                         if factorial_result.is_infinite() {
                             break;
